@@ -381,3 +381,59 @@ Theorem C16_rings_perms_rejects :
          hungarian_rings_permutations ls li rs ri step = Err ValueErr.
 Proof. exact @rings_perms_rejects. Qed.
 Print Assumptions C16_rings_perms_rejects.
+
+(* ---- table-driven puzzles: the CURRENT literal tables of moves.py / cube.py (regenerated by translator T4b on every run) ---- *)
+From V Require Import MoveTablesDefs MoveTablesProofs.
+From V.gen Require Import MoveTables.
+
+(* mini pyramorphix: 17 moves, each a permutation of 24 points, the set is inverse-closed (the documented undirected graph) *)
+Theorem C16_mini_pyramorphix_table_ok :
+  table_ok 24 tbl_mini_pyramorphix_allowed_moves = true /\ List.length tbl_mini_pyramorphix_allowed_moves = 17
+  /\ gens_inverse_closed (perms_of tbl_mini_pyramorphix_allowed_moves) = true.
+Proof. exact mini_pyramorphix_table_ok. Qed.
+Print Assumptions C16_mini_pyramorphix_table_ok.
+
+Theorem C16_picture_cube_table_ok :
+  table_ok 72 tbl_picture_cube_333_allowed_moves = true /\ List.length tbl_picture_cube_333_allowed_moves = 18
+  /\ gens_inverse_closed (perms_of tbl_picture_cube_333_allowed_moves) = true.
+Proof. exact picture_cube_table_ok. Qed.
+Print Assumptions C16_picture_cube_table_ok.
+
+(* pyraminx: 8 moves of order 3 on 36 points; with their inverses 16 generators, inverse-closed *)
+Theorem C16_pyraminx_table_ok :
+  table_ok 36 tbl_pyraminx_moves = true /\ List.length pyraminx_gens = 16
+  /\ List.forallb (has_order 3) (perms_of tbl_pyraminx_moves) = true
+  /\ gens_inverse_closed (List.map snd pyraminx_gens) = true.
+Proof. exact pyraminx_table_ok. Qed.
+Print Assumptions C16_pyraminx_table_ok.
+
+(* megaminx: 12 face turns of order 5 on 120 points; with their inverses 24 generators, inverse-closed *)
+Theorem C16_megaminx_table_ok :
+  table_ok 120 tbl_megaminx_moves = true /\ List.length megaminx_gens = 24
+  /\ List.forallb (has_order 5) (perms_of tbl_megaminx_moves) = true
+  /\ gens_inverse_closed (List.map snd megaminx_gens) = true.
+Proof. exact megaminx_table_ok. Qed.
+Print Assumptions C16_megaminx_table_ok.
+
+(* the fixed-corner 2x2x2 tables and the 3x3x3 face-turn table: permutations of order 4; the fixed-corner generator sets are inverse-closed *)
+Theorem C16_cube222_table_ok :
+  table_ok 24 tbl_cube222_moves = true /\ List.forallb order4 (perms_of tbl_cube222_moves) = true
+  /\ gens_inverse_closed (List.map snd cube222_quarter_gens) = true /\ gens_inverse_closed (List.map snd cube222_half_gens) = true.
+Proof. exact cube222_table_ok. Qed.
+Print Assumptions C16_cube222_table_ok.
+
+Theorem C16_cube333_table_ok :
+  table_ok 54 tbl_cube333_moves = true /\ List.forallb order4 (perms_of tbl_cube333_moves) = true.
+Proof. exact cube333_table_ok. Qed.
+Print Assumptions C16_cube333_table_ok.
+
+(* what the boolean facts mean *)
+Theorem C16_table_ok_meaning : forall size t, table_ok size t = true ->
+  exists l, table_perms t = Ok l /\ forall nm p, List.In (nm, p) l -> Perm.is_perm p = true /\ List.length p = size.
+Proof. exact table_ok_meaning. Qed.
+Print Assumptions C16_table_ok_meaning.
+
+Theorem C16_gens_inverse_closed_meaning : forall gens, gens_inverse_closed gens = true ->
+  forall p, List.In p gens -> List.In (Perm.inverse_perm p) gens.
+Proof. exact gens_inverse_closed_meaning. Qed.
+Print Assumptions C16_gens_inverse_closed_meaning.
